@@ -68,6 +68,16 @@ def check(ctx, n, r, s, tag, detail=True):
             except Exception:
                 pass
         ctx.count("out_of_domain_calls_interleaved", 5)
+    if detail and _NOISE["i"] % 4 == 1 and n > 2:
+        # other helpers of the module asked about the same order first (whatever they remember must not reach the encoders)
+        for f, args in ((util.randrange_from_seed__trytryagain, (b"c13", n)), (util.randrange_from_seed__overshoot_modulo, (b"c13", n)), (util.bits_and_bytes, (n,)), (util.orderlen, (n,)),
+                        (util.randrange, (n, lambda nb: b"\x01" * nb)), (util.number_to_string, (1, n)), (getattr(util, "randrange_from_seed__truncate_bytes", util.orderlen), (b"c13", n) if hasattr(util, "randrange_from_seed__truncate_bytes") else (n,)),
+                        (getattr(util, "randrange_from_seed__truncate_bits", util.orderlen), (b"c13", n) if hasattr(util, "randrange_from_seed__truncate_bits") else (n,))):
+            try:
+                f(*args)
+            except Exception:
+                pass
+        ctx.count("other_helpers_called_for_the_same_order_first")
     if detail and _NOISE["i"] % 2 == 0:
         # the same s with r in a relation to it (r = s, r = n - s, r = min(s, n - s), r + s = n +- 1): the encoder treats r as opaque
         for r_rel in {s, n - s, want_s, (n - s + 1) % n or 1, (n - s - 1) % n or 1}:
